@@ -22,6 +22,32 @@ class Infra(Exception):
     """Infrastructure problem: exit 2, never a violation."""
 
 
+class Crash(Exception):
+    """The code under test panicked inside a driver (top frame of the panicking goroutine is in the repository's
+    packages, not in the harness): observed behaviour of the real code, reported as a violation."""
+    def __init__(self, run, func, text):
+        Exception.__init__(self, "%s: panic in %s" % (run, func))
+        self.run, self.func, self.text = run, func, text
+
+
+def _repo_panic(out):
+    """Returns the function of the first frame of the panicking goroutine if that frame is repository code."""
+    i = out.find("\npanic: ")
+    if i < 0 and not out.startswith("panic: "):
+        return None
+    lines = out[max(i, 0):].splitlines()
+    for k, ln in enumerate(lines):
+        if ln.startswith("goroutine ") and "[running" in ln:
+            for fr in lines[k + 1:k + 12]:
+                fr = fr.strip()
+                if not fr or fr.startswith("/") or fr.startswith("panic(") or fr.startswith("runtime.") or fr.startswith("created by"):
+                    continue
+                if fr.startswith("github.com/cosi-project/runtime/"):
+                    return fr.split("(")[0] if not fr.startswith("github.com/cosi-project/runtime/pkg/state/impl/inmem.(*") else fr.rsplit("(", 1)[0]
+                return None
+    return None
+
+
 class Ctx:
     def __init__(self, prop, tier, level="model_checking"):
         self.prop = prop
@@ -350,6 +376,9 @@ def go_run(ctx, binary, run, env, *, timeout=600, cwd=None, allow_fail=False, ex
     p = subprocess.run(cmd, cwd=cwd or ctx.scratch, env=e, stdout=subprocess.PIPE, stderr=subprocess.STDOUT, text=True)
     ctx.log("go %s rc=%d %.1fs" % (run, p.returncode, time.time() - t))
     if p.returncode != 0 and not allow_fail:
+        func = _repo_panic(p.stdout)
+        if func:
+            raise Crash(run, func, p.stdout[p.stdout.find("panic: "):][:6000])
         raise Infra("driver %s failed rc=%d:\n%s" % (run, p.returncode, p.stdout[-6000:]))
     return p.returncode, p.stdout
 
@@ -363,6 +392,12 @@ def main(run_fn, prop, level="model_checking"):
     try:
         run_fn(ctx)
         rc = ctx.finish()
+    except Crash as ex:
+        ctx.violation("code-under-test-panicked/%s" % ex.func.split("/")[-1], "driver %s: the code under test panicked in %s" % (ex.run, ex.func),
+                      {"driver": ex.run, "panic": ex.text})
+        ctx.cov["driver_crashed"] = True
+        ctx.finish()
+        sys.exit(1)
     except Infra as ex:
         print("INFRA property=%s: %s" % (prop, ex), flush=True)
         ctx.cov["infra_error"] = str(ex)[:2000]
